@@ -620,7 +620,9 @@ class Union(Structure, metaclass=UnionMetaType):
     def _proxify(self) -> None:
         def _proxy_structure(value: Structure, member: str | None = None) -> None:
             # The structures of a nested union are wrapped in a proxy of that union already, look through it
-            target = value.__target__ if isinstance(value, UnionProxy) else value
+            target = value
+            while isinstance(target, UnionProxy):
+                target = target.__target__
             for field in target.__class__.__fields__:
                 if issubclass(field.type, Structure):
                     nested_value = getattr(target, field._name)
